@@ -59,17 +59,28 @@ def clients(prog: Program) -> List[ClientRoles]:
             continue
         deco_names = [dotted(d) for d in impl.decorators]
         traced = retried = None
+        role_of: Dict[str, str] = {}
         for dn in deco_names:
             fn = ci.methods.get(dn or '')
+            if fn is None and dn and '.' not in dn:
+                # the decorator may live at module level instead of in the class body
+                ent = prog.attr_of(ci, dn)
+                if isinstance(ent, tuple) and len(ent) == 3 and ent[0] == 'value':      # class-level alias `traced = _traced`
+                    ent = prog.resolve(ent[1], ent[2])
+                if not isinstance(ent, FuncInfo):
+                    ent = prog.module_attr(ci.module, dn)
+                fn = ent if isinstance(ent, FuncInfo) else None
             if fn is None or not fn.nested:
                 continue
             w = list(fn.nested.values())[0]
             attrs = {x.attr for x in ast.walk(w.node) if isinstance(x, ast.Attribute)}
             if 'on_request_begin' in attrs or 'on_request_end' in attrs or 'on_error' in attrs:
                 traced = fn
+                role_of[dn or '?'] = 'traced'
             elif any(isinstance(x, ast.Attribute) and x.attr in ('retry', 'retry_async') for x in ast.walk(w.node)) or \
                     'retry' in (dn or ''):
                 retried = fn
+                role_of[dn or '?'] = 'retried'
         if traced is None or retried is None:
             raise AnalysisError(f'{ci.qualname}._send: tracing / retrying decorators not recognised among {deco_names}')
         for need in ('call', 'notify', 'send'):
@@ -77,7 +88,7 @@ def clients(prog: Program) -> List[ClientRoles]:
                 raise AnalysisError(f'{ci.qualname}.{need} not found')
         out.append(ClientRoles(ci, impl, traced, list(traced.nested.values())[0], retried, list(retried.nested.values())[0],
                                ci.methods['call'], ci.methods['notify'], ci.methods['send'], impl.is_async,
-                               [d or '?' for d in deco_names]))
+                               [role_of.get(d or '?', d or '?') for d in deco_names]))
     if len(out) < 2:
         raise AnalysisError(f'expected the synchronous and the asynchronous abstract client, found {len(out)}')
     return out
@@ -306,9 +317,9 @@ def traced_facts(prog: Program, interp: Interp, cr: ClientRoles) -> Tuple[Dict[s
 def decor_order_facts(prog: Program, cr: ClientRoles) -> Tuple[Dict[str, Any], List[Problem]]:
     problems: List[Problem] = []
     names = cr.decorators
-    facts = {'decorators_outer_to_inner': ['retried' if n == cr.retried.name else 'traced' if n == cr.traced.name else n for n in names]}
-    it = names.index(cr.traced.name)
-    ir = names.index(cr.retried.name)
+    facts = {'decorators_outer_to_inner': list(names)}        # by role: 'traced' / 'retried' / other decorator names
+    it = names.index('traced')
+    ir = names.index('retried')
     if not ir < it:
         problems.append(('DECOR-ORDER', 'tracing wraps retrying', cr.send_impl.node.lineno,
                          f'{short(cr.send_impl.qualname)} is decorated {names}: the tracing decorator must be applied first '
@@ -690,7 +701,10 @@ def backoff_facts(prog: Program) -> Tuple[Dict[str, Any], List[Problem]]:
     if len(subs) < 3:
         raise AnalysisError(f'expected 3 backoff families, found {len(subs)}')
     for ci in subs:
-        call = ci.methods.get('__call__')
+        # the family's own __call__, or an inherited template method (`return self._delays()`) resolved against the family
+        call = prog.find_method(ci, '__call__')
+        if call is not None and call.cls is base and not any(isinstance(x, ast.Return) and isinstance(x.value, ast.Call) for x in walk_own(call.node)):
+            call = None         # the abstract placeholder of the base class
         if call is None:
             problems.append(('BACKOFF-BOUND', f'{ci.name} has no __call__', ci.node.lineno, f'{ci.name} does not produce delays'))
             continue
